@@ -96,6 +96,11 @@ def applyFilter {C : Type} (cfg : Cfg) (cks : J → C) (obj : J) : Option (Entry
     | none => none
     | some v => some { cks := cks v, fr := some v, obj := some obj }
 
+/-- The checksum the code computes (`utils_checksum.CalculateChecksum(string(bytes))`): a hash `h`
+(md5, a parameter) of the JSON *text* of the projection — the text of a string value carries its
+quotes. -/
+def textCks {C : Type} (h : String → C) (j : J) : C := h j.print
+
 def removeFull {C : Type} (cfg : Cfg) (e : Entry C) : Entry C :=
   if cfg.keep then e else { e with obj := none }
 
